@@ -566,8 +566,10 @@ class MerchantEngine:
         else:
             # most_specific mode: resolve each field independently by specificity
             if matching_rules:
-                # Merchant: most specific rule that sets merchant
-                merchant_rules = [(r, s, v) for r, s, v in matching_rules if r.has_merchant]
+                # Merchant: most specific categorization rule that sets merchant
+                # (tag-only rules never change merchant/category/subcategory)
+                merchant_rules = [(r, s, v) for r, s, v in matching_rules
+                                  if r.has_merchant and r.is_categorization_rule]
                 if merchant_rules:
                     winner = max(merchant_rules, key=lambda x: x[1])
                     result.merchant = winner[0].merchant
